@@ -10,7 +10,7 @@ Open Scope N_scope.
 
 (* ====================================================================================================
    1. metadata certificates: Model/CertSelect.v md_certs (C03, C08, C10, C17)  vs  Model/MdStore.v
-      store_certs (C16).  [abs_store num st]: the C16 store st as a CertSelect store - per entity one
+      store_certs (C16), both following the library + proposed_fix/C03-1.  [abs_store num st]: the C16 store st as a CertSelect store - per entity one
       key-descriptor group per descriptor TYPE in the order certs(.., any, ..) visits them, certificate
       texts numbered by num after repack_cert. *)
 Module G1.
@@ -22,8 +22,26 @@ Theorem Glue_getitem_agrees :
 Proof. exact find_entity_abs_store. Qed.
 Print Assumptions Glue_getitem_agrees.
 
-(* whenever C16's certs() answers, C03's md_certs answers the same list: same certificates, same order, same
-   duplicates dropped (num injective on the texts of the served entity) *)
+(* MetaData.certs(.., any, ..) in C03's and in C16's model is ONE function: same certificates, same order, same
+   duplicates dropped, KeyError (unknown entity) there = None here - for every store, entity and use (num injective on
+   the texts of the served entity; Glue_md_certs_eq_canonical: no hypothesis).  Both models follow the library with
+   proposed_fix/C03-1. *)
+Theorem Glue_md_certs_eq :
+  forall num st i use,
+    inj_on (served_text st i) num ->
+    CS.md_certs (abs_store num st) (Some i) use =
+    match MS.store_certs st i ANY use with Ok l => Some (map num l) | Err _ => None end.
+Proof. exact md_certs_eq. Qed.
+Print Assumptions Glue_md_certs_eq.
+
+(* the numbering "position in the list of all certificate texts of the store" always qualifies *)
+Theorem Glue_md_certs_eq_canonical :
+  forall st i use,
+    CS.md_certs (abs_store (num_of (store_texts st)) st) (Some i) use =
+    match MS.store_certs st i ANY use with Ok l => Some (map (num_of (store_texts st)) l) | Err _ => None end.
+Proof. exact md_certs_eq_canonical. Qed.
+Print Assumptions Glue_md_certs_eq_canonical.
+
 Theorem Glue_md_certs_agree :
   forall num st i use l,
     inj_on (served_text st i) num ->
@@ -32,7 +50,6 @@ Theorem Glue_md_certs_agree :
 Proof. exact md_certs_agree. Qed.
 Print Assumptions Glue_md_certs_agree.
 
-(* the numbering "position in the list of all certificate texts of the store" always qualifies *)
 Theorem Glue_md_certs_agree_canonical :
   forall st i use l,
     MS.store_certs st i ANY use = Ok l ->
@@ -49,50 +66,74 @@ Theorem Glue_md_certs_unknown :
 Proof. exact md_certs_unknown. Qed.
 Print Assumptions Glue_md_certs_unknown.
 
-(* the only other way certs() fails, exactly; there md_certs still answers: the models DISAGREE *)
+(* certs(.., any, ..) fails for an unknown entity only *)
 Theorem Glue_md_certs_keyerror :
   forall num st i use x,
     MS.store_certs st i ANY use = Err x ->
-    x = MS.KeyError /\
-    (MS.store_get st i = None \/
-     exists e r k, MS.store_get st i = Some e /\ In r (MS.e_roles e) /\ any_role r /\ In k (MS.r_keys r) /\
-                   MS.use_ok use k = true /\ MS.kd_certs k = [] /\
-                   exists l', CS.md_certs (abs_store num st) (Some i) use = Some l').
+    x = MS.KeyError /\ MS.store_get st i = None /\ CS.md_certs (abs_store num st) (Some i) use = None.
 Proof. exact md_certs_keyerror. Qed.
 Print Assumptions Glue_md_certs_keyerror.
 
-(* ... with a witness and its consequences for _check_signature (store_check_signature: the selection over the
-   C16 store with the KeyError swallowed as sigver.py does).  The library behaves as the left-hand sides say. *)
-Theorem Glue_md_certs_disagreement_witness :
-  MS.store_certs ex_bad (s2l "A") ANY MS.U_SIGNING = Err MS.KeyError /\
-  CS.md_certs (abs_store ex_num ex_bad) (Some (s2l "A")) CS.SIGNING = Some [1] /\
-  store_check_signature ex_num true ex_bad (Some (s2l "A")) true [1] 1 = Err (s2l "MissingKey") /\
-  CS.check_signature true (abs_store ex_num ex_bad) (Some (s2l "A")) true [1] 1 = Ok tt /\
-  store_check_signature ex_num true ex_bad (Some (s2l "A")) false [9] 9 = Ok tt /\
-  CS.check_signature true (abs_store ex_num ex_bad) (Some (s2l "A")) false [9] 9 = Err (s2l "SignatureError").
-Proof. exact md_certs_keyerror_disagreement. Qed.
-Print Assumptions Glue_md_certs_disagreement_witness.
-
-(* under the side condition (every key descriptor certs() would read has X509Data) the two are ONE function, and so
-   are the certificate selection and the verdict of _check_signature *)
-Theorem Glue_md_certs_eq :
-  forall num st i use,
-    inj_on (served_text st i) num -> x509_complete use st i ->
-    CS.md_certs (abs_store num st) (Some i) use =
-    match MS.store_certs st i ANY use with Ok l => Some (map num l) | Err _ => None end.
-Proof. exact md_certs_eq. Qed.
-Print Assumptions Glue_md_certs_eq.
-
+(* ... and so are the certificate selection and the verdict of _check_signature (store_check_signature: the selection
+   over the C16 store with the KeyError swallowed as sigver.py does) *)
 Theorem Glue_check_signature_agrees :
   forall num mp st issuer only_md embedded signer,
-    (forall i, issuer = Some i -> inj_on (served_text st i) num /\ x509_complete CS.SIGNING st i) ->
+    (forall i, issuer = Some i -> inj_on (served_text st i) num) ->
     store_candidate_certs num mp st issuer only_md embedded = CS.candidate_certs mp (abs_store num st) issuer only_md embedded /\
     store_check_signature num mp st issuer only_md embedded signer =
       CS.check_signature mp (abs_store num st) issuer only_md embedded signer.
 Proof. exact store_check_agrees. Qed.
 Print Assumptions Glue_check_signature_agrees.
 
-(* membership in md_certs of an abstracted store, in C16's words - no side condition *)
+Theorem Glue_check_signature_agrees_canonical :
+  forall mp st issuer only_md embedded signer,
+    let num := num_of (store_texts st) in
+    store_candidate_certs num mp st issuer only_md embedded = CS.candidate_certs mp (abs_store num st) issuer only_md embedded /\
+    store_check_signature num mp st issuer only_md embedded signer =
+      CS.check_signature mp (abs_store num st) issuer only_md embedded signer.
+Proof. exact store_check_agrees_canonical. Qed.
+Print Assumptions Glue_check_signature_agrees_canonical.
+
+(* HISTORY (the former disagreement, now the effect of proposed_fix/C03-1).  Before the repair certs() raised KeyError
+   in exactly one more case: a use-matching KeyDescriptor of the served entity without X509Data - although the entity
+   declares certificates (md_certs answers) ... *)
+Theorem Glue_md_certs_before_fix_keyerror :
+  forall num st i use x,
+    MS.store_certs_before_fix st i ANY use = Err x ->
+    x = MS.KeyError /\
+    (MS.store_get st i = None \/
+     exists e r k, MS.store_get st i = Some e /\ In r (MS.e_roles e) /\ any_role r /\ In k (MS.r_keys r) /\
+                   MS.use_ok use k = true /\ MS.kd_certs k = [] /\
+                   exists l', CS.md_certs (abs_store num st) (Some i) use = Some l').
+Proof. exact md_certs_before_fix_keyerror. Qed.
+Print Assumptions Glue_md_certs_before_fix_keyerror.
+
+(* ... under the side condition (every key descriptor certs() would read has X509Data) the repair changes nothing ... *)
+Theorem Glue_store_certs_before_fix_complete :
+  forall st i use, x509_complete use st i -> MS.store_certs_before_fix st i ANY use = MS.store_certs st i ANY use.
+Proof. exact store_certs_before_fix_complete. Qed.
+Print Assumptions Glue_store_certs_before_fix_complete.
+
+(* ... and the witness with its consequences for _check_signature (the unpatched library behaves as the _before_fix
+   lines say, the patched one as the others: harness/glue_probe.py): the declared key 1 refused with MissingKey under
+   the default setting; any embedded key (9) accepted with the setting off although metadata holds a signing key *)
+Theorem Glue_md_certs_before_fix_witness :
+  MS.store_certs_before_fix ex_bad (s2l "A") ANY MS.U_SIGNING = Err MS.KeyError /\
+  MS.store_certs ex_bad (s2l "A") ANY MS.U_SIGNING = Ok [cert_a] /\
+  CS.md_certs (abs_store ex_num ex_bad) (Some (s2l "A")) CS.SIGNING = Some [1] /\
+  CS.md_certs_before_fix (abs_store ex_num ex_bad) (Some (s2l "A")) CS.SIGNING = None /\
+  store_check_signature_before_fix ex_num true ex_bad (Some (s2l "A")) true [1] 1 = Err (s2l "MissingKey") /\
+  CS.check_signature_before_fix true (abs_store ex_num ex_bad) (Some (s2l "A")) true [1] 1 = Err (s2l "MissingKey") /\
+  store_check_signature ex_num true ex_bad (Some (s2l "A")) true [1] 1 = Ok tt /\
+  CS.check_signature true (abs_store ex_num ex_bad) (Some (s2l "A")) true [1] 1 = Ok tt /\
+  store_check_signature_before_fix ex_num true ex_bad (Some (s2l "A")) false [9] 9 = Ok tt /\
+  CS.check_signature_before_fix true (abs_store ex_num ex_bad) (Some (s2l "A")) false [9] 9 = Ok tt /\
+  store_check_signature ex_num true ex_bad (Some (s2l "A")) false [9] 9 = Err (s2l "SignatureError") /\
+  CS.check_signature true (abs_store ex_num ex_bad) (Some (s2l "A")) false [9] 9 = Err (s2l "SignatureError").
+Proof. exact md_certs_before_fix_witness. Qed.
+Print Assumptions Glue_md_certs_before_fix_witness.
+
+(* membership in md_certs of an abstracted store, in C16's words *)
 Theorem Glue_md_certs_members :
   forall num st i use l x,
     CS.md_certs (abs_store num st) (Some i) use = Some l ->
@@ -185,43 +226,46 @@ Theorem Glue_document_functions_commute :
   (forall nm t, X.registered (nm' nm) (emb t) = M.registered nm t []) /\
   (forall a b, X.tree_eqb (emb a) (emb b) = M.tree_eqb a b) /\
   (forall p t, X.remove_at p (emb t) = emb (M.remove_at p t)) /\
-  (forall v t, RQ.count_id v t = List.length (X.carriers v (emb t))).
+  (forall v t, List.length (M.with_id v (M.all_ids t [])) = List.length (X.carriers v (emb t))).
 Proof.
   split; [exact subtree_emb|]. split; [exact first_sig_emb|]. split; [exact registered_emb_root|].
-  split; [exact tree_eqb_emb|]. split; [exact remove_at_emb|exact count_id_emb].
+  split; [exact tree_eqb_emb|]. split; [exact remove_at_emb|exact all_ids_count].
 Qed.
 Print Assumptions Glue_document_functions_commute.
 
-(* the pre-check requests go through (C10) IS the pre-check C01 is proved about *)
+(* the enveloping pre-check: ONE predicate in the three models - Xmlsec.precheck (C10, C16; it counts the carriers of the
+   ID among the elements of ANY name, as sigver._enveloped_signature_ok does), Request.enveloped_ok (now simply
+   Xmlsec.precheck) and the pre-check C01 is proved about *)
+Theorem Glue_xmlsec_precheck_is_C01_precheck :
+  forall doc nm i, X.precheck (emb doc) (nm' nm) i = M.precheck doc nm i.
+Proof. exact xmlsec_precheck_is_xsw_precheck. Qed.
+Print Assumptions Glue_xmlsec_precheck_is_C01_precheck.
+
 Theorem Glue_request_precheck_is_C01_precheck :
-  forall doc nm i, X.precheck (emb doc) (nm' nm) i = RQ.enveloped_ok doc nm i.
-Proof. exact enveloped_ok_is_xsw_precheck. Qed.
+  forall doc nm i, X.precheck (emb doc) (nm' nm) i = RQ.enveloped_ok doc nm i /\ RQ.enveloped_ok doc nm i = M.precheck doc nm i.
+Proof. intros doc nm i. split; [exact (enveloped_ok_is_xsw_precheck doc nm i)|reflexivity]. Qed.
 Print Assumptions Glue_request_precheck_is_C01_precheck.
 
-(* Xmlsec.precheck ALONE (without Request.v's count of carriers) is implied by it ... *)
-Theorem Glue_xmlsec_precheck_is_weaker :
-  forall doc nm i, X.precheck (emb doc) (nm' nm) i = true -> M.precheck doc nm i = true.
-Proof. exact xsw_precheck_implies_xmlsec_precheck. Qed.
-Print Assumptions Glue_xmlsec_precheck_is_weaker.
-
-(* ... and strictly weaker: the ID of the AuthnRequest also on an element of another name.  The library refuses
-   this document (_enveloped_signature_ok counts carriers of any name): Xmlsec.precheck / Xmlsec.check_signature_x
-   are NOT the code; no property uses them without the count. *)
-Theorem Glue_xmlsec_precheck_disagreement_witness :
-  M.precheck foreign_carrier_doc 1 (Some (s2l "a-1")) = true /\
+(* HISTORY: Xmlsec.precheck used to count the carriers among the elements of the asked NAME only
+   (precheck_registered_only) and accepted the ID of the AuthnRequest repeated on an element of another name, which the
+   library refuses (harness/glue_probe.py); today all models refuse it *)
+Theorem Glue_xmlsec_precheck_foreign_carrier_witness :
+  precheck_registered_only foreign_carrier_doc 1 (Some (s2l "a-1")) = true /\
   M.tool_verify true foreign_carrier_doc 1 (Some (s2l "a-1")) 5 = true /\
-  M.check_signature_x true foreign_carrier_doc 1 (Some (s2l "a-1")) [5] = true /\
+  M.precheck foreign_carrier_doc 1 (Some (s2l "a-1")) = false /\
+  M.check_signature_x true foreign_carrier_doc 1 (Some (s2l "a-1")) [5] = false /\
   X.precheck (emb foreign_carrier_doc) (nm' 1) (Some (s2l "a-1")) = false /\
   RQ.enveloped_ok foreign_carrier_doc 1 (Some (s2l "a-1")) = false.
-Proof. exact xmlsec_precheck_weaker_witness. Qed.
-Print Assumptions Glue_xmlsec_precheck_disagreement_witness.
+Proof. exact xmlsec_precheck_foreign_carrier_witness. Qed.
+Print Assumptions Glue_xmlsec_precheck_foreign_carrier_witness.
 
 (* _check_signature after certificate selection: one verdict *)
 Theorem Glue_check_signature_x_agrees :
   forall dupfail doc nm i certs,
+    X.check_signature_x (pol_of dupfail) (emb doc) (nm' nm) i certs = M.check_signature_x dupfail doc nm i certs /\
     X.check_signature_x (pol_of dupfail) (emb doc) (nm' nm) i certs =
     RQ.enveloped_ok doc nm i && existsb (M.tool_verify dupfail doc nm (RQ.node_id_arg i)) certs.
-Proof. exact check_signature_x_emb. Qed.
+Proof. intros. split; [apply check_signature_x_is_xmlsec|apply check_signature_x_emb]. Qed.
 Print Assumptions Glue_check_signature_x_agrees.
 
 (* C01_relied_is_covered for requests: a signed request that passes the signature check is covered in C01's sense -
@@ -327,18 +371,27 @@ Theorem Glue_ident_code_same : forall n, CA.code (toC n) = ID.code n.
 Proof. exact code_same. Qed.
 Print Assumptions Glue_ident_code_same.
 
-(* ident.decode: the two models agree on every code (byte strings in the attributes) ... *)
+(* ident.decode in C18's and in C19's model: ONE function on every string (Model/Cache.v's decode is Model/Ident.v's,
+   read into Cache.v's record) *)
+Theorem Glue_ident_decode_same :
+  forall s, CA.decode s = match ID.decode s with Ok m => Ok (toC m) | Err e => Err e end.
+Proof. exact decode_same. Qed.
+Print Assumptions Glue_ident_decode_same.
+
 Theorem Glue_ident_decode_same_on_codes :
   forall n, IDL.wfb n -> exists m, ID.decode (ID.code n) = Ok m /\ CA.decode (ID.code n) = Ok (toC m).
 Proof. exact decode_same_on_codes. Qed.
 Print Assumptions Glue_ident_decode_same_on_codes.
 
-(* ... and DISAGREE off the image of code(): the library follows Model/Ident.v (int("-1"), int("04") are indexes) *)
-Theorem Glue_ident_decode_disagreement_witness :
-  ID.decode (s2l "-1=a") = Ok (ID.nid_t (s2l "a")) /\ CA.decode (s2l "-1=a") = Ok CA.no_nid /\
-  ID.decode (s2l "04=a") = Ok (ID.nid_t (s2l "a")) /\ CA.decode (s2l "04=a") = Ok CA.no_nid.
-Proof. exact decode_disagreement_witness. Qed.
-Print Assumptions Glue_ident_decode_disagreement_witness.
+(* HISTORY: the one-digit decoder Model/Cache.v had before differed off the image of code(): the library follows
+   Model/Ident.v (int("-1"), int("04") are indexes) *)
+Theorem Glue_ident_decode_one_digit_witness :
+  ID.decode (s2l "-1=a") = Ok (ID.nid_t (s2l "a")) /\ CA.decode_one_digit (s2l "-1=a") = Ok CA.no_nid /\
+  CA.decode (s2l "-1=a") = Ok (toC (ID.nid_t (s2l "a"))) /\
+  ID.decode (s2l "04=a") = Ok (ID.nid_t (s2l "a")) /\ CA.decode_one_digit (s2l "04=a") = Ok CA.no_nid /\
+  CA.decode (s2l "04=a") = Ok (toC (ID.nid_t (s2l "a"))).
+Proof. exact decode_one_digit_witness. Qed.
+Print Assumptions Glue_ident_decode_one_digit_witness.
 End G3.
 
 (* ====================================================================================================
@@ -401,22 +454,39 @@ Theorem Glue_request_check_sig_is_check_signature_runs :
         let i := RQ.root_id (RQ.d_tree d) in
         if pre && negb (RQ.enveloped_ok (RQ.d_tree d) nm i) then Err (s2l "SignatureError") else
         let f := Xmlsec.tool_verify (RQ.c_dupfail c) (RQ.d_tree d) nm (RQ.node_id_arg i) in
-        check_signature_runs false (map (fun k => run_of (f k)) certs)
-                             (if fixd then false else ovc) (last_tried_valid c (find f certs) certs)
+        (if fixd then check_signature_runs else check_signature_runs_before_fix)
+          false (map (fun k => run_of (f k)) certs) ovc (last_tried_valid c (find f certs) certs)
     end.
 Proof. exact request_check_sig_is_check_signature_runs. Qed.
 Print Assumptions Glue_request_check_sig_is_check_signature_runs.
 
-(* Model/Sigver.v's only_valid_cert = true branch is the code BEFORE the F16 repair: not the library any more *)
-Theorem Glue_check_signature_runs_stale_branch_witness :
-  check_signature_runs false [run_of false] true true = Ok tt /\
+(* today's code state (fixd = true): Sigver.check_signature_runs itself, whatever only_valid_cert *)
+Theorem Glue_request_check_sig_now :
+  forall pre c d nm ovc,
+    RQ.check_sig pre true c d nm ovc =
+    match RQ.request_certs c d with
+    | Err e => Err e
+    | Ok certs =>
+        let i := RQ.root_id (RQ.d_tree d) in
+        if pre && negb (RQ.enveloped_ok (RQ.d_tree d) nm i) then Err (s2l "SignatureError") else
+        let f := Xmlsec.tool_verify (RQ.c_dupfail c) (RQ.d_tree d) nm (RQ.node_id_arg i) in
+        check_signature_runs false (map (fun k => run_of (f k)) certs) ovc (last_tried_valid c (find f certs) certs)
+    end.
+Proof. exact request_check_sig_now. Qed.
+Print Assumptions Glue_request_check_sig_now.
+
+(* HISTORY: the branch Model/Sigver.v's check_signature_runs had for only_valid_cert = true was the code BEFORE the F16
+   repair (now check_signature_runs_before_fix); today's model, the library and Request.v with fixd raise SignatureError *)
+Theorem Glue_check_signature_runs_before_fix_witness :
+  check_signature_runs_before_fix false [run_of false] true true = Ok tt /\
+  check_signature_runs false [run_of false] true true = Err (s2l "SignatureError") /\
   check_signature_runs false [run_of false] false true = Err (s2l "SignatureError") /\
   (forall c d nm, RQ.request_certs c d = Ok [7%N] -> RQ.cert_ok c 7 = true ->
       Xmlsec.tool_verify (RQ.c_dupfail c) (RQ.d_tree d) nm (RQ.node_id_arg (RQ.root_id (RQ.d_tree d))) 7 = false ->
       RQ.check_sig false true c d nm true = Err (s2l "SignatureError") /\
       RQ.check_sig false false c d nm true = Ok tt).
-Proof. exact check_signature_runs_only_valid_cert_branch_is_stale. Qed.
-Print Assumptions Glue_check_signature_runs_stale_branch_witness.
+Proof. exact check_signature_runs_before_fix_witness. Qed.
+Print Assumptions Glue_check_signature_runs_before_fix_witness.
 
 Theorem Glue_request_verify_same :
   forall c addrs d,
